@@ -40,7 +40,7 @@ def _case(draw):
     flags = {"owner_pair": False, "stop_del": False}
     n = draw(st.integers(2, 50))
     for _ in range(n):
-        o = draw(st.sampled_from(["new", "new", "newa", "copy", "del", "drop", "collect", "churn", "box", "boxchain", "arrb", "stop", "start", "windel"]))
+        o = draw(st.sampled_from(["new", "new", "newa", "copy", "del", "drop", "collect", "churn", "box", "boxchain", "boxcycle", "arrb", "stop", "start", "windel"]))
         if o in ("new", "newa"):
             cls = draw(st.sampled_from(["m", "m", "m", "root", "raw"]))
             nobj += 1
@@ -152,6 +152,36 @@ def _case(draw):
                 ops.append(["delowner", head, leaf])
             else:
                 kept[free[0]] = head
+            flags["owner_pair"] = True
+        elif o == "boxcycle" and not stopped:
+            # owners that form a cycle (B -> C -> B) entered from an outside owner T: everything is garbage at once and
+            # the sweep (or an explicit del of T) meets the same object through two owners; it must still be finalised once
+            free = sorted(set(range(16)) - set(kept))
+            if len(free) < 2:
+                continue
+            nobj += 6
+            n1, B, n2, C, n3, T = nobj - 5, nobj - 4, nobj - 3, nobj - 2, nobj - 1, nobj
+            ops.append(["new", n1, "node", "m"])
+            ops.append(["new", B, "box", "m", n1])
+            ops.append(["stk", free[0], B])
+            ops.append(["new", n2, "node", "m"])
+            ops.append(["new", C, "box", "m", n2])
+            ops.append(["stk", free[1], C])
+            ops.append(["store", C, 0, B])          # C -> B
+            ops.append(["store", B, 0, C])          # B -> C   (n1, n2 become plain garbage)
+            ops.append(["new", n3, "node", "m"])
+            ops.append(["new", T, "box", "m", n3])
+            ops.append(["store", T, 0, B])          # T -> B
+            ops.append(["unstk", free[1]])
+            how = draw(st.sampled_from(["drop", "drop", "del"]))
+            if how == "drop":
+                ops.append(["unstk", free[0]])
+            else:
+                ops.append(["stk", free[0], T])
+                ops.append(["unstk", free[0]])
+                ops.append(["delowner", T, -1])
+            if draw(st.booleans()):
+                ops.append(["collect"])
             flags["owner_pair"] = True
         elif o == "arrb" and not stopped:
             if len(kept) >= 16:
